@@ -158,6 +158,7 @@ class _Obl:
 
 # =============================================================================================== EXTRA: exception funnels
 def exception_funnels(tier="quick", seed=0):
+    _no_tqdm_monitor()
     import sqlfluff.core.errors as E
     from sqlfluff.core.linter import linter as LM
     from sqlfluff.core.linter import runner as RM
@@ -663,9 +664,25 @@ def _limit_verdicts(rec):
     return bad
 
 
+def _no_tqdm_monitor():
+    """sqlfluff's parser opens a tqdm progress bar; the first bar starts tqdm's monitor THREAD, which takes tqdm's (multiprocessing)
+    lock every few seconds.  Forking worker processes while that thread holds the lock leaves the lock taken for ever in the children
+    (observed: all workers blocked in tqdm.__new__, the check never returned).  No monitor thread, no race."""
+    try:
+        import tqdm
+        tqdm.tqdm.monitor_interval = 0
+        mon = getattr(tqdm.tqdm, "monitor", None)
+        if mon is not None:
+            mon.exit()
+            tqdm.tqdm.monitor = None
+    except Exception:      # noqa -- tqdm absent or of another vintage: nothing to switch off
+        pass
+
+
 def _pool(n=_POOL):
     import concurrent.futures as cf
     import multiprocessing as mp
+    _no_tqdm_monitor()
     return cf.ProcessPoolExecutor(max_workers=n, mp_context=mp.get_context("fork"))
 
 
@@ -736,7 +753,13 @@ _CHARS = list("abzAZ019 _\t\n\r'\"`-/*#$@:;,.()[]{}<>=!+%\\~^|&?") + ["é", "€
                                                                     "\U0001F600", "\x00", "\x0b", "\x7f", "\ud800", "\udfff"]
 _FRAGS = ["{{", "}}", "{%", "%}", "{#", "#}", "{{ x }}", "{% if x %}", "{% endif %}", "{% for i in x %}", "{% endfor %}", "-- noqa", "--", "/*", "*/",
           "SELECT", "FROM", "WHERE", "select", "from", "(", ")", "((", "))", "[", "]", "'", "''", '"', "$$", ":x", ":1", "${", "?", ";", ";;", ",",
-          " ", "  ", "\n", "1", "a", "a.b", "*", "CASE", "WHEN", "END", "AS", "JOIN", "ON", "=", "IN", "NULL", "CREATE", "TABLE", "-- sqlfluff:"]
+          " ", "  ", "\n", "1", "a", "a.b", "*", "CASE", "WHEN", "END", "AS", "JOIN", "ON", "=", "IN", "NULL", "CREATE", "TABLE", "-- sqlfluff:",
+          # template expressions / tags that parse but fail when RENDERED (ZeroDivisionError, undefined callable, attribute of an undefined
+          # value, unpacking a non-iterable): must come back as TMP
+          "{{ 1/0 }}", "{{ 5 % 0 }}", "{{ undefined_fn() }}", "{{ x.y.z }}", "{% for a, b in [1] %}{% endfor %}", "{{ x[9] }}", "{{ 1 // 0 }}",
+          "{{ x | nofilter }}", "{{ 'a' + 1 }}", "{% set q = 1/0 %}", "{{ x.pop.pop }}", "{% include 'nofile' %}",
+          # ... with exception classes outside TemplateError / TypeError / ValueError / ArithmeticError (LookupError family, RuntimeError)
+          "{{ [].pop() }}", "{{ {}.popitem() }}", "{{ 'a'.encode('nocodec') }}", "{{ cycler() }}"]
 
 
 # inputs that made other stand-ins fail (C01 token positions: whitespace made of templated + literal + templated pieces)
@@ -925,6 +948,7 @@ def funnel_scenarios(tier="quick", seed=0):
     fixed scenarios are the CPython side of that model (ids C04/dynamic/<funnel>/<clause>)."""
     import logging
     logging.disable(logging.CRITICAL)
+    _no_tqdm_monitor()
     failed, samples = [], []
     n = 0
 
